@@ -1475,7 +1475,9 @@ class SecurityBase(Node):
 
         # (while changes are pending in the tree the cached weight cannot be
         # trusted: the security may have been traded since it was computed)
-        if is_zero(self._weight) and is_zero(self._position) and not self.root.stale:
+        # (and a security that paid bid/offer today still counts towards its
+        # parent's bid/offer paid for the date)
+        if is_zero(self._weight) and is_zero(self._position) and not self.root.stale and is_zero(self._bidoffer_paid):
             self._needupdate = False
 
         # save outlay to outlays
